@@ -536,9 +536,109 @@ fn lattice(ctx: &Ctx, rep: &mut Report) {
     }
 }
 
+
+/// thorough only: exhaustive lattice over own (priority1 x clockClass) x two candidates on two ports
+/// (each: priority1 x clockClass x stepsRemoved x grandmaster identity x sender relation); grandmaster
+/// attributes are kept consistent per identity by skipping pairs that disagree.
+fn lattice2(ctx: &Ctx, rep: &mut Report) {
+    let t0 = std::time::Instant::now();
+    let mut cands: Vec<MasterSpec> = vec![];
+    for &fp1 in &P1S {
+        for &fclass in &CLASSES {
+            for &steps in &STEPS {
+                for gm_b in [0x05u8, 0x20, 0x10] {
+                    for sender_b in [0x03u8, 0x30] {
+                        let mut gm = [0u8; 8];
+                        gm[7] = gm_b;
+                        let mut s = [0u8; 8];
+                        s[7] = sender_b;
+                        if gm_b == 0x10 && steps == 0 {
+                            continue;
+                        }
+                        let ann = RAnnounce { origin: RTs::default(), utc_offset: 37, reserved: 0, gm_priority1: fp1, gm_class: fclass, gm_accuracy: 0x21, gm_variance: 0x4000, gm_priority2: 128, gm_identity: gm, steps_removed: steps, time_source: 0x20 };
+                        cands.push(MasterSpec { sender: PortId { clock: s, port: 1 }, ann, flags1: 0x0c });
+                    }
+                }
+            }
+        }
+    }
+    let owns: Vec<(u8, u8)> = P1S.iter().flat_map(|p| CLASSES.iter().map(move |c| (*p, *c))).collect();
+    let results: std::sync::Mutex<Vec<(u64, Option<(String, String, serde_json::Value)>)>> = std::sync::Mutex::new(vec![]);
+    let next = std::sync::atomic::AtomicUsize::new(0);
+    std::thread::scope(|sc| {
+        for _ in 0..ctx.threads.max(1) {
+            sc.spawn(|| loop {
+                let i = next.fetch_add(1, std::sync::atomic::Ordering::Relaxed);
+                if i >= owns.len() {
+                    break;
+                }
+                let (p1, class) = owns[i];
+                let mut total = 0u64;
+                let mut first = None;
+                for a in &cands {
+                    for b in &cands {
+                        // one set of attributes per grandmaster identity
+                        if a.ann.gm_identity == b.ann.gm_identity && (a.ann.gm_priority1, a.ann.gm_class) != (b.ann.gm_priority1, b.ann.gm_class) {
+                            continue;
+                        }
+                        if (a.ann.gm_identity == OWN && (a.ann.gm_priority1, a.ann.gm_class) != (p1, class)) || (b.ann.gm_identity == OWN && (b.ann.gm_priority1, b.ann.gm_class) != (p1, class)) {
+                            continue;
+                        }
+                        let sc2 = Scenario {
+                            p1,
+                            class,
+                            acc: 0x21,
+                            var: 0x4000,
+                            p2: 128,
+                            slave_only: false,
+                            master_only: vec![false, false],
+                            p2p: vec![false, false],
+                            preludes: vec![Prelude::None, Prelude::ReceiptTimeout],
+                            prelude_masters: vec![],
+                            round: vec![vec![a.clone()], vec![b.clone()]],
+                            reannounce: vec![None, None],
+                            own_ann: vec![None, None],
+                            delivery_keys: vec![1, 2, 3, 4, 5, 6, 7, 8],
+                            order: vec![1, 0],
+                        };
+                        let mut out = CaseOut::new();
+                        if let Some(o) = execute(&sc2, false, &mut out) {
+                            reference(&sc2, &o, &mut out);
+                        }
+                        total += 1;
+                        if let (Some(v), None) = (out.violation, &first) {
+                            first = Some((v.sig, v.detail, render(&sc2)));
+                        }
+                    }
+                }
+                lock_mon_take();
+                results.lock().unwrap().push((total, first));
+            });
+        }
+    });
+    let mut total = 0;
+    let mut first = None;
+    for (n, f) in results.into_inner().unwrap() {
+        total += n;
+        if first.is_none() {
+            first = f;
+        }
+    }
+    rep.evaluations += total;
+    rep.parts.push(json!({"part": "two-candidate-lattice", "cases": total, "exhaustive": true, "wall_s": t0.elapsed().as_secs_f64(),
+        "what": "own priority1 x clockClass x (candidate on port 1) x (candidate on port 2, prior state Master), candidates over priority1 x clockClass x stepsRemoved x grandmaster identity x sender relation"}));
+    if let Some((sig, detail, r)) = first {
+        rep.violations.push((Violation { sig: format!("{}|lattice2", sig), detail }, vec![], r));
+        rep.viol_parts.push("two-candidate-lattice".into());
+    }
+}
+
 pub fn run(ctx: &Ctx) -> i32 {
     let mut rep = Report::new();
     lattice(ctx, &mut rep);
+    if !ctx.quick() {
+        lattice2(ctx, &mut rep);
+    }
     run_cases(ctx, &mut rep, "sampled", ctx.cases(150_000, 5_000_000), case);
     // every decision code must have been exercised
     let mut missing = vec![];
